@@ -310,12 +310,14 @@ impl Schedule {
             nonzero_choices: 0,
         }
     }
-    fn peek_jitter(&mut self) -> bool {
-        if self.jitter && self.pos < self.bytes.len() && self.bytes[self.pos] == 255 {
+    /// 255 = a 1 ms hiccup, 254 = a 7 ms stall
+    fn peek_jitter(&mut self) -> Option<u64> {
+        if self.jitter && self.pos < self.bytes.len() && self.bytes[self.pos] >= 254 {
+            let ms = if self.bytes[self.pos] == 255 { 1 } else { 7 };
             self.pos += 1;
-            true
+            Some(ms)
         } else {
-            false
+            None
         }
     }
     fn next(&mut self, len: usize) -> usize {
@@ -357,7 +359,7 @@ pub async fn drive(
     mut done: impl FnMut() -> bool,
     mut after_step: impl FnMut(u64, u64),
 ) -> DriveEnd {
-    let on_advance = || crate::core::log(crate::core::Ev::Note("advance".into()));
+    let on_advance = |ns: u64| crate::core::log(crate::core::Ev::Note(format!("advance {ns}")));
     let mut steps = 0u64;
     loop {
         if done() {
@@ -383,10 +385,11 @@ pub async fn drive(
                 }
             }
         }
-        if sched.peek_jitter() {
-            tokio::time::advance(std::time::Duration::from_millis(1)).await;
-            sched.advances.push(0);
-            on_advance();
+        if let Some(ms) = sched.peek_jitter() {
+            let before = tokio::time::Instant::now();
+            tokio::time::advance(std::time::Duration::from_millis(ms)).await;
+            sched.advances.push(ms);
+            on_advance(before.elapsed().as_nanos() as u64);
             continue;
         }
         let pick = runnable[sched.next(runnable.len())];
